@@ -92,6 +92,7 @@ type ReqD struct {
 	ExtKind  string // Cancel Deadline
 	CtxKey   int64  // -1 none, -2 non-string value, >= 0 string key id
 	Entry    string // Get GetWithExecution Run RunWithExecution GetAsync GetWithExecutionAsync RunAsync RunWithExecutionAsync
+	NoLsn    [3]bool // executor listeners left unregistered: OnSuccess, OnFailure, OnDone
 }
 
 func (r ReqD) withExec() bool { return strings.Contains(r.Entry, "WithExecution") }
@@ -119,8 +120,9 @@ func (r ReqD) Gallina() string {
 	} else if r.CtxKey >= 0 {
 		key = fmt.Sprintf("(CKStr %d)", r.CtxKey)
 	}
-	return fmt.Sprintf("{| q_stack := %s; q_script := %s; q_gap := %d; q_ext := %s; q_key := %s; q_withexec := %s; q_run := %s |}",
-		gList(ps), gList(ss), r.Gap, ext, key, gBool(r.withExec()), gBool(strings.HasPrefix(r.Entry, "Run")))
+	return fmt.Sprintf("{| q_stack := %s; q_script := %s; q_gap := %d; q_ext := %s; q_key := %s; q_withexec := %s; q_run := %s; q_lsn := (%s, %s, %s) |}",
+		gList(ps), gList(ss), r.Gap, ext, key, gBool(r.withExec()), gBool(strings.HasPrefix(r.Entry, "Run")),
+		gBool(!r.NoLsn[0]), gBool(!r.NoLsn[1]), gBool(!r.NoLsn[2]))
 }
 
 type InstD struct {
